@@ -555,14 +555,16 @@ func (fr *Frame) runLoop(li *loopInfo, entry []edge) map[*ssa.BasicBlock][]edge 
 			switch inv.Kind {
 			case "invariant":
 				ex.clauseProps = inv.Props
-				g := ex.proveSpec(inv.Expr, inv.Info, envb, pcb)
-				ex.oblige("invariant-preserved", fmt.Sprintf("%s.%d", loopName(li), inv.Index), inv.Pos, pcb, g, inv.Text)
+				for _, g := range ex.proveSplit(inv.Expr, inv.Info, envb, pcb) {
+					ex.oblige("invariant-preserved", fmt.Sprintf("%s.%d", loopName(li), inv.Index), inv.Pos, pcb, g, inv.Text)
+				}
 				ex.clauseProps = nil
 			case "step":
 				envs := fr.specEnv(stb, st1)
 				ex.clauseProps = inv.Props
-				g := ex.proveSpec(inv.Expr, inv.Info, envs, pcb)
-				ex.oblige("loop-step", fmt.Sprintf("%s.%d", loopName(li), inv.Index), inv.Pos, pcb, g, inv.Text)
+				for _, g := range ex.proveSplit(inv.Expr, inv.Info, envs, pcb) {
+					ex.oblige("loop-step", fmt.Sprintf("%s.%d", loopName(li), inv.Index), inv.Pos, pcb, g, inv.Text)
+				}
 				ex.clauseProps = nil
 			case "decreases":
 				v := ex.evalSpec(inv.Expr, inv.Info, envb, pcb).(IntV).T
